@@ -901,6 +901,26 @@ theorem gen_deepcopy_threads_memo :
     inducingDeepcopyArgs.lookup "base_kernel" = some CopyMode.memo ∧
     inducingDeepcopyArgs.lookup "inducing_points" = some CopyMode.memo := by decide
 
+/-- the eval-mode caches of the structured kernels (`K_zz`, `K_zz^{-1/2}`, the KISS-GP / grid `K_uu`) cannot be read stale, as a
+fact about the guards found in the source: in TRAINING mode each cache is either never read (`not self.training and …`) or was
+dropped on entering training mode and is not written there; on LEAVING training mode (parameters may have changed) and on
+`update_grid` — in interpolation mode too — the caches are dropped, and `_clear_cache` drops all of them. -/
+theorem gen_eval_caches_sound :
+    let f := factOf evalCacheFacts
+    (f "InducingPointKernel._inducing_mat reads its cache only in eval mode" ∨
+      (f "Module.train clears the eval caches when entering training mode" ∧
+       f "InducingPointKernel._inducing_mat writes its cache only in eval mode")) ∧
+    (f "InducingPointKernel._inducing_inv_root reads its cache only in eval mode" ∨
+      (f "Module.train clears the eval caches when entering training mode" ∧
+       f "InducingPointKernel._inducing_inv_root writes its cache only in eval mode")) ∧
+    (f "GridKernel.forward reads its cache only in eval mode" ∨
+      (f "Module.train clears the eval caches when entering training mode" ∧
+       f "GridKernel.forward writes its cache only in eval mode")) ∧
+    f "Module.train clears the eval caches when leaving training mode" ∧
+    f "GridKernel.update_grid drops the cache unconditionally (also in interpolation mode)" ∧
+    f "InducingPointKernel._clear_cache drops both caches" ∧
+    f "GridKernel._clear_cache drops the cached kernel matrix" := by decide
+
 section
 variable [Field α] {g nf : ℕ}
 
